@@ -20,7 +20,7 @@ from arklib.facts import op_local, place_parts, op_place
 MONT = "ark_ff::fields::models::fp::montgomery_backend::MontConfig"
 SUB_NAMES = {"sub_with_borrow", "const_sub_with_borrow", "__sub_with_borrow"}
 CMP_TRAITS = ("core::cmp::PartialOrd", "core::cmp::Ord")
-UNITS = ["ws", "curves", "shapes"]
+UNITS = ["ws", "curves", "shapes", "par"]
 
 
 def mentions(k, suffix="::MODULUS"):
@@ -660,6 +660,114 @@ def check_bytes(res, facts):
     (rule.ok if ok else rule.bad)(key, "for byte in rest.rev(): res = res*256 + byte" if ok else "absorption loop is not res*256 + byte over the reversed remainder (mul by %s, add %s, rev: %s)" % ([show(x) for x in w], [show(x) for x in ad], "rev" in names), f.loc)
 
 
+def check_unroll(res, facts):
+    """#[unroll_for_loops(K)] rewrites `for i in BEGIN..END { body }` into a main loop over T / K blocks (T = END - BEGIN)
+    that starts block b at i = BEGIN + b*K, followed by a remainder that starts at i = BEGIN + (T / K)*K.  Decided on the
+    expanded MIR of every unrolled loop: both start indices, with the loop's own BEGIN and K (so the index range covered
+    is exactly BEGIN..END for every limb count, including loops that start at 1 and run more than K times)."""
+    from rules.c07 import E, show, norm, qeq
+    from rules.c17 import to_q, NotPoly
+    from arklib.poly import Q
+    rule = res.rule("R-UNROLL", "unrolled loops cover BEGIN..END: block b starts at BEGIN + b*K, the remainder at BEGIN + (T/K)*K", 100)
+    for f in facts.fns(unit="ws", crate="ark_ff"):
+        dbg = f.d.get("dbg") or []
+        if not any(n == "num_loops" for n, l in dbg):
+            continue
+        names = {}
+        for n, l in dbg:
+            names.setdefault(l, n)
+        groups = []          # (numloops term, T, K, BEGIN)
+        inits = []           # (bb, local, term)
+        for bi, si, st_ in f.stmts():
+            if "d" not in st_:
+                continue
+            l, projs = place_parts(st_["d"])
+            if projs or l not in names:
+                continue
+            r = st_["r"]
+            if r["k"] == "bin":
+                e = norm(("bin", r["op"], DF.expr(f, r["a"], depth=30), DF.expr(f, r["b"], depth=30)))
+            elif r["k"] == "use":
+                e = E(f, r["o"])
+            else:
+                continue
+            if names[l] == "num_loops" and isinstance(e, tuple) and e[0] == "bin" and e[1] == "Div":
+                T, K = e[2], e[3]
+                if isinstance(T, tuple) and T[0] == "call" and T[1] == "unwrap_or" and isinstance(T[2][0], tuple) and T[2][0][1] == "checked_sub":
+                    groups.append((e, T, K, T[2][0][2][1], T[2][0][2][0], bi))
+            elif names[l] not in ("total_iters", "num_loops", "remainder", "iter") and isinstance(e, tuple) and e[0] == "bin" and e[1] in ("Add", "Mul") and "Mul" in show(e):
+                inits.append((bi, l, e))
+        for gi, (nl, T, K, BEGIN, END, gbb) in enumerate(groups):
+            key = "ark_ff|%s|loop%d" % (f.id[-80:], gi)
+
+            def leaf(t, nl=nl, BEGIN=BEGIN):
+                if t == nl:
+                    return "nl"
+                if t == ("iter", 0, nl):
+                    return "b"
+                if t == BEGIN:
+                    return "BEGIN"
+                return "<%s>" % show(t)[:50]
+            try:
+                kq = to_q(K, leaf)
+                bq = to_q(BEGIN, leaf)
+            except NotPoly:
+                rule.undecided(key, "BEGIN / K not integer expressions", f.loc)
+                continue
+            main = rem = None
+            for bi, l, e in inits:
+                if bi < gbb:
+                    continue
+                try:
+                    q = to_q(e, leaf)
+                except NotPoly:
+                    continue
+                txt = repr(q)
+                if "b" in q.vars() and main is None:
+                    main = q
+                elif "nl" in q.vars() and "b" not in q.vars() and rem is None:
+                    rem = q
+                if main is not None and rem is not None:
+                    break
+            problems = []
+            if main is None or not qeq(main, bq + Q.var("b") * kq):
+                problems.append("block b of the unrolled loop starts at index %s instead of BEGIN + b*K = %s: for a loop beginning at %s that runs at least K = %s times the body is executed for the wrong indices" % (main, bq + Q.var("b") * kq, show(BEGIN), show(K)))
+            if rem is None or not qeq(rem, bq + Q.var("nl") * kq):
+                problems.append("the remainder starts at index %s instead of BEGIN + (T/K)*K = %s" % (rem, bq + Q.var("nl") * kq))
+            (rule.bad if problems else rule.ok)(key, "; ".join(problems) if problems else "for %s..%s by %s: starts %s and %s" % (show(BEGIN), show(END)[:30], show(K), main, rem), f.loc)
+
+
+def check_batchinv(res, facts):
+    """batch_inversion_and_mul returns coeff * v_i^-1 in every slot: every value stored into the slice depends on `coeff`
+    (dataflow), on every path -- including short-cut paths for particular lengths; the parallel form hands the same
+    coeff to the serial kernel per chunk"""
+    rule = res.rule("R-BATCHCOEFF", "batch_inversion_and_mul: every element written back carries the factor coeff", 2)
+    for unit in ("ws", "par"):
+        fs = [f for f in facts.fns(unit=unit, crate="ark_ff") if f.kind != "Closure" and f.id == "ark_ff::fields::serial_batch_inversion_and_mul"]
+        key = "ark_ff|%s|serial_batch_inversion_and_mul" % unit
+        if not fs:
+            rule.bad(key, "anchor missing")
+            continue
+        f = fs[0]
+        dep = DF.Dep(f)
+        stores = []
+        for bi, si, st_ in f.stmts():
+            if "d" in st_:
+                l, projs = place_parts(st_["d"])
+                if projs and projs[0] == "*":
+                    src = op_local(st_["r"]["o"]) if st_["r"]["k"] == "use" else None
+                    if src is not None:
+                        # does the written pointer derive from the slice argument?
+                        if 1 in dep.args_in_slice([l]):
+                            stores.append((bi, src, 2 in dep.args_in_slice([src])))
+        if not stores:
+            rule.undecided(key, "no write-back into the slice found", f.loc)
+        elif all(ok for _, _, ok in stores):
+            rule.ok(key, "%d write-back site(s), all depend on coeff" % len(stores), f.loc)
+        else:
+            rule.bad(key, "%d of %d write-backs into the slice do not depend on `coeff`: on that path the elements become v_i^-1 instead of coeff * v_i^-1 (e.g. a special case for short slices; with the parallel feature the serial kernel is called on chunks of any length)" % (sum(1 for s_ in stores if not s_[2]), len(stores)), f.loc)
+
+
 def run(ctx, res):
     facts = ctx.facts(UNITS)
     res.analysed = facts.stats()
@@ -672,6 +780,8 @@ def run(ctx, res):
     check_fromint(res, facts)
     check_sopchunk(res, facts, mods)
     check_bytes(res, facts)
+    check_unroll(res, facts)
+    check_batchinv(res, facts)
     res.notes.append("moduli analysed: %d (units %s); reduction helpers: %d; geq-predicates: %d" % (len(mods), UNITS, len(reducers), len(pinfo)))
     return {
         "level": "other",
